@@ -597,6 +597,16 @@ mod verif_accessors {
             )
         }
 
+        /// Undo the real time that has passed since `since` (or since the last submission attempt,
+        /// if that is later), so that only `verif_advance_time` moves the limiter's clock.
+        pub fn verif_freeze_clock(&mut self, since: Instant) {
+            if let Some(t) = self.last_submission {
+                let now = now_monotonic();
+                let base = t.max(since);
+                self.last_submission = Some(t + now.saturating_duration_since(base));
+            }
+        }
+
         /// Pretend that `by` more time has elapsed since the last submission attempt.
         pub fn verif_advance_time(&mut self, by: Duration) {
             self.last_submission = self.last_submission.map(|t| t.checked_sub(by).expect("instant underflow"));
